@@ -140,9 +140,9 @@ PROPS = {
     ),
     'C18': dict(
         title='tuple conversions',
-        obligations=FROM_U64,   # + the Kani harnesses, see tools/kani_c18.py
-        assumptions=['Version::parse("a.b.c") denotes those fields and Display prints them (text shell)'],
-        not_decided=['agreement with Version::parse / to_string'],
+        obligations=FROM_U64 + VGRAMMAR + ['fn:Version::parse_str', 'fn:Identifier::display_fmt', 'fn:Version::display_fmt', 'mod:m_vprops', 'mod:m_c12'],   # + the Kani harnesses, see tools/kani_c18.py
+        assumptions=[WINNOW, FMT, 'the text half (prints as `a.b.c` / `a.b.c-d`, and that text parses to the same fields) is proved for the value `Version::from` is proved to build (lemma_c18_*), over the contracts of Display and Version::parse; for the nine other integer types the link from the tuple to that value is the Kani harness of that type'],
+        not_decided=['`to_string()` = Display::fmt into an empty String (std)'],
         witness='c18',
     ),
 }
